@@ -47,6 +47,23 @@ CHECKS["C10"] = dict(
     design_ref="DESIGN.md section 3, C09/C10",
 )
 
+_RES_NOTE = "Bounds: lists of 3 (quick) / 4 (thorough) citations over 9 abstract kinds; volumes, reporters, guessed editions, pages, party names, antecedents, pin cites and token indexes symbolic (integers unbounded). Stubs: hash_sha256 injective; strip_punct identity (names without punctuation); re.match on the pin cite by contract. Trusted: interpreter (self-tested on extracted documents each run), z3, the reference model in vf/harness/c06.py."
+CHECKS["C06"] = dict(
+    engine="symex", category="other",
+    text="Bounded symbolic verification of the real resolve_citations and citation/Resource hash+eq source: on every feasible path the mapping's values are disjoint ordered sub-sequences of the input led by a full citation, every full citation is under exactly one resource, unknown citations never appear, and two full citations share a resource iff the specification equality (volume, page, normalised reporter, no placeholder) holds - a z3 validity query per path.",
+    note=_RES_NOTE, technique=SYMEX, design_ref="DESIGN.md section 3, C06-C08",
+)
+CHECKS["C07"] = dict(
+    engine="symex", category="other",
+    text="Same exploration as C06; on every path each short/supra/reference citation is attached to a resource only if an independent reference model (z3 formulas over the same symbolic attributes) says that resource is the unique admissible one, and left out otherwise; id. follows only its predecessor's resource and only inside the page window [p, p+150] with a numeric pin cite and a non-placeholder case page.",
+    note=_RES_NOTE + " The placeholder-page rule is applied to case citations (journal/law citations with a None page do not block id.), as the code and the property's kind alphabet have it.", technique=SYMEX, design_ref="DESIGN.md section 3, C06-C08",
+)
+CHECKS["C08"] = dict(
+    engine="symex", category="other",
+    text="Same exploration as C06 with self-composition: in the same path every prefix of the list is resolved too and must equal the restriction of the full resolution (same groups, members, order), and no citation sits under a resource whose first full citation comes later.",
+    note=_RES_NOTE, technique=SYMEX, design_ref="DESIGN.md section 3, C06-C08",
+)
+
 PENDING = {}
 
 NOT_APPLICABLE = {
